@@ -19,15 +19,30 @@ Definition lerp (a b : vec) (t : Q) : vec := vadd a (vscale t (vsub b a)).
 (* visibility.py: D, N, M of an edge (vec_1, vec_2); t = N / (N + M) is the only parameter at which the
    altitude along the edge can have a local optimum *)
 Definition alt_D (a b : vec) : Q := vx a * vx b + vy a * vy b.
-Definition alt_N (a b : vec) : Q := (vx a * vx a + vy a * vy a) * vz b - alt_D a b * vz a.
-Definition alt_M (a b : vec) : Q := (vx b * vx b + vy b * vy b) * vz a - alt_D a b * vz b.
+(* [Qred2] / [Qred] (x == Qred2 x == Qred x) only keep the fractions of the extracted model small: Qred2 cancels the
+   common power of two of numerator and denominator in linear time (the inputs are binary floats) *)
+Fixpoint strip2 (n d : positive) : positive * positive :=
+  match n, d with
+  | xO n', xO d' => strip2 n' d'
+  | _, _ => (n, d)
+  end.
+Definition Qred2 (q : Q) : Q :=
+  match Qnum q with
+  | Z0 => 0
+  | Zpos n => let (a, b) := strip2 n (Qden q) in Zpos a # b
+  | Zneg n => let (a, b) := strip2 n (Qden q) in Zneg a # b
+  end.
+Definition alt_N (a b : vec) : Q :=
+  Qred2 (Qred2 (vx a * vx a + vy a * vy a) * vz b - Qred2 (alt_D a b) * vz a).
+Definition alt_M (a b : vec) : Q :=
+  Qred2 (Qred2 (vx b * vx b + vy b * vy b) * vz a - Qred2 (alt_D a b) * vz b).
 
 Definition edge_t (e : vec * vec) : option Q :=
   let (a, b) := e in
-  let s := alt_N a b + alt_M a b in
+  let s := Qred2 (alt_N a b + alt_M a b) in
   if Qeq_bool s 0 then None                       (* inf / nan: both comparisons of the mask are False *)
   else let t := alt_N a b / s in
-       if Qltb 0 t && Qltb t 1 then Some t else None.
+       if Qltb 0 t && Qltb t 1 then Some (Qred t) else None.
 
 Definition edge_extra (e : vec * vec) : option vec :=
   match edge_t e with Some t => Some (lerp (fst e) (snd e) t) | None => None end.
@@ -46,17 +61,24 @@ Section ObjectWindows.
 
   (* (azimuth relative to +y, altitude), both normalised with np.mod(. + pi, 2 pi) - pi *)
   Definition sph (w : vec) : Q * Q :=
-    (wrap_az PI (atan2 (vy w) (vx w)),
-     qmod (asin (vz w / norm w) + PI) (2 * PI) - PI).
+    (Qred (wrap_az PI (atan2 (vy w) (vx w))),
+     Qred (qmod (asin (vz w / norm w) + PI) (2 * PI) - PI)).
 
   (* [verts]/[edges]: the target's mesh vertices / edges already in the viewer frame *)
-  Definition object_windows (h v : Q) (verts : list vec) (edges : list (vec * vec))
+  Definition object_angles (verts : list vec) (edges : list (vec * vec)) : list (Q * Q) :=
+    map sph (augment verts edges).
+
+  Definition windows_of_angles (h v : Q) (edges : list (vec * vec)) (angs : list (Q * Q))
     : option (list window) :=
     let fl := crosses edges in
-    match map sph (augment verts edges) with
+    match angs with
     | [] => None
-    | a0 :: angs => view_windows PI h v (fst fl) (snd fl) a0 angs
+    | a0 :: rest => view_windows PI h v (fst fl) (snd fl) a0 rest
     end.
+
+  Definition object_windows (h v : Q) (verts : list vec) (edges : list (vec * vec))
+    : option (list window) :=
+    windows_of_angles h v edges (object_angles verts edges).
 End ObjectWindows.
 
 (* ================================================================== (c) the ray grid *)
@@ -65,7 +87,9 @@ Definition linspace (lo hi : Q) (n : nat) : list Q :=
   match n with
   | O => []
   | S O => [lo]
-  | S m => map (fun i => lo + inject_Z (Z.of_nat i) * ((hi - lo) / inject_Z (Z.of_nat m))) (seq 0 n)
+  | S m => let lo' := Qred lo in
+           let step := Qred ((hi - lo) / inject_Z (Z.of_nat m)) in
+           map (fun i => lo' + inject_Z (Z.of_nat i) * step) (seq 0 n)
   end.
 
 Definition ceil_nat (x : Q) : nat := Z.to_nat (Qceiling x).
@@ -83,8 +107,8 @@ Section Grid.
 
   (* (azimuth, altitude) of every ray cast in one window; None = an `assert ..._size > 0` fails *)
   Definition window_rays (w : window) : option (list (Q * Q)) :=
-    let hs := h_hi w - h_lo w in
-    let vs := v_hi w - v_lo w in
+    let hs := Qred (h_hi w - h_lo w) in
+    let vs := Qred (v_hi w - v_lo w) in
     if negb (Qltb 0 hs) || negb (Qltb 0 vs) then None else
     let valts := linspace (v_lo w) (v_hi w) (ceil_nat (vs / v * rcv)) in
     Some (if altscale
